@@ -4,21 +4,28 @@ import Hive.Model.OMapConc
 -/
 namespace Hive.OMap
 
-/-- every `write` of the script happens while the goroutine's hold of `A` (`applyMutex`) is `want`;
-`hA` is the hold at the start of the script -/
-def guardedBy (want : Hold) : Hold → List Act → Bool
-  | _, [] => true
-  | _, .rlock .A :: r => guardedBy want .r r
-  | _, .req .A :: r => guardedBy want .req r
-  | _, .acq .A :: r => guardedBy want .w r
-  | _, .runlock .A :: r => guardedBy want .none r
-  | _, .unlock .A :: r => guardedBy want .none r
-  | hA, .write :: r => hA == want && guardedBy want hA r
-  | hA, _ :: r => guardedBy want hA r
+/-- every `write` to set `i` (a `write` while `M i` is held) happens while the goroutine's hold of `A i`
+(`applyMutex` of that set) is `want`; `hA`/`sA` = the `applyMutex` hold at the start of the script, `sM` = the set
+whose map mutex is held -/
+def guardedBy (i : Nat) (want : Hold) : Hold → Nat → Option Nat → List Act → Bool
+  | _, _, _, [] => true
+  | _, _, sM, .rlock (.A j) :: r => guardedBy i want .r j sM r
+  | _, _, sM, .req (.A j) :: r => guardedBy i want .req j sM r
+  | _, _, sM, .acq (.A j) :: r => guardedBy i want .w j sM r
+  | _, _, sM, .runlock (.A _) :: r => guardedBy i want .none 0 sM r
+  | _, _, sM, .unlock (.A _) :: r => guardedBy i want .none 0 sM r
+  | hA, sA, _, .rlock (.M j) :: r => guardedBy i want hA sA (some j) r
+  | hA, sA, _, .req (.M j) :: r => guardedBy i want hA sA (some j) r
+  | hA, sA, _, .acq (.M j) :: r => guardedBy i want hA sA (some j) r
+  | hA, sA, _, .runlock (.M _) :: r => guardedBy i want hA sA none r
+  | hA, sA, _, .unlock (.M _) :: r => guardedBy i want hA sA none r
+  | hA, sA, sM, .write :: r => (sM != some i || (hA == want && sA == i)) && guardedBy i want hA sA sM r
+  | hA, sA, sM, .read :: r => guardedBy i want hA sA sM r
 
 /-- the calls that change the contents of a set through `applyMutex` -/
 def Call.isMutator : Call → Bool
   | .reader _ => false
+  | .readerOf _ _ => false
   | .clear => false
   | .mapSet => false
   | .mapDelete _ => false
@@ -27,8 +34,8 @@ def Call.isMutator : Call → Bool
 
 /-- `Apply`/`Compute`/`Replace` -/
 def Call.isAtomic : Call → Bool
-  | .apply _ _ => true
-  | .replace _ _ => true
+  | .apply _ _ _ _ => true
+  | .replace _ _ _ => true
   | _ => false
 
 end Hive.OMap
